@@ -252,10 +252,56 @@ def run(ctx):
                  "random command lines with --revcomp (single and paired) plus directed single-end cases with the adapter on either strand, high error "
                  "rates (negative scores), ties, every action and --times; non-trivial = distinct read that is output reverse-complemented",
                  nontrivial=lambda c, r: False)
-    for case, res, real, model in pipe.run_cases(ctx, directed(ctx) + directed_paired(ctx)):
+    for case, res, real, model in pipe.run_cases(ctx, directed(ctx) + directed_paired(ctx) + norevcomp_cases(ctx)):
         ctx.count("directed")
         oracle(ctx, case, res, real)
+        norevcomp_oracle(ctx, case, real)
     multicore_count(ctx)
+
+
+def norevcomp_cases(ctx):
+    """black-box form of the property: every record written with --revcomp is what the same command *without* --revcomp writes for the read as
+    given or for its reverse complement (and then carries ` rc`) - whatever the action and whatever the case of the input letters"""
+    rng = ctx.rng
+    cases = []
+    for _ in range(ctx.scale(20, 300)):
+        ad = rng.choice(["AAAGGGCCCTTTG", "GATTACAGATTCC"])
+        flag = rng.choice(["-a", "-a", "-g", "-b"])
+        argv = (["--no-index"] if rng.random() < 0.5 else []) + [flag, "a0=" + ad, "--revcomp"]
+        if rng.random() < 0.8:
+            argv += ["--action", rng.choice(["lowercase", "lowercase", "mask", "none", "trim", "retain"])]
+        argv += ["-o", "{dir}/o1.fastq"]
+        reads = []
+        for i in range(8):
+            body = pipe.rs(rng, rng.randint(8, 20))
+            k = rng.random()
+            s_ = body + ad + pipe.rs(rng, rng.randint(0, 3)) if k < 0.3 else revcomp(body + ad + pipe.rs(rng, rng.randint(0, 3))) if k < 0.6 else body
+            if rng.random() < 0.6:
+                s_ = "".join(c.lower() if rng.random() < 0.4 else c for c in s_)       # soft-masked input
+            reads.append((f"r{i}", s_, "".join(chr(33 + rng.randint(2, 40)) for _ in s_)))
+        cases.append(dict(argv=argv, paired=False, reads1=reads, reads2=None, with_qual=True, interleaved_in=False, norevcomp=True))
+    return cases
+
+
+def norevcomp_oracle(ctx, case, real):
+    if not case.get("norevcomp") or "error" in real:
+        return
+    comp = str.maketrans("ACGTacgt", "TGCAtgca")
+    plain = [t for t in case["argv"] if t != "--revcomp"]
+    _, fwd = pipe.run_real(dict(case, argv=plain))
+    _, rev = pipe.run_real(dict(case, argv=plain, reads1=[(n_, s_.translate(comp)[::-1], q_[::-1]) for n_, s_, q_ in case["reads1"]]))
+    if "error" in fwd or "error" in rev:
+        return
+    f = {rid(r[0]): tuple(r) for r in fwd["files"].get("o1.fastq", [])}
+    v = {rid(r[0]): tuple(r) for r in rev["files"].get("o1.fastq", [])}
+    ctx.count("norevcomp-checked")
+    for r in real["files"].get("o1.fastq", []):
+        k = rid(r[0])
+        want = (v[k][0] + " rc", v[k][1], v[k][2]) if r[0].endswith(" rc") else f[k]
+        if tuple(r) != want:
+            ctx.failures.append(Failure("C16/not-what-it-returns-without-revcomp", "a record written with --revcomp differs from what the same command without --revcomp "
+                                        "writes for that orientation of the read", case_input(case), list(r), list(want)))
+            return
 
 
 def multicore_count(ctx):
@@ -292,4 +338,10 @@ def extended_search(ctx):
         oracle(ctx, case, res, real)
 
 
-replay = pipeprop.generic_replay("C16", oracle)
+def _replay_oracle(ctx, case, res, real):
+    oracle(ctx, case, res, real)
+    if not case["paired"] and "--revcomp" in case["argv"]:
+        norevcomp_oracle(ctx, dict(case, norevcomp=True), real)
+
+
+replay = pipeprop.generic_replay("C16", _replay_oracle)
